@@ -117,7 +117,7 @@ theorem nodeOK_follower {b : Sys N} {nd : NodeSt N} {ap pd : Nat} (hr : nd.role 
 
 theorem gate_conf {s : CSys N} {i : Fin N} {v : Nat} (h : isConfData (gate s i v) = true) :
     gate s i v = v ∧ s.pend i ≤ s.applied i := by
-  unfold gate at h ⊢
+  unfold gate gateB at h ⊢
   by_cases hc : (isConfData v && decide (s.applied i < s.pend i)) = true
   · rw [if_pos hc] at h; rw [isConfData_zero] at h; cases h
   · rw [if_neg hc] at h ⊢
